@@ -11,9 +11,14 @@ import Smpl.Drv.Transcode
 import Smpl.Drv.Wav
 import Smpl.Drv.Cue
 import Smpl.Drv.Names
+import Smpl.Drv.Akai
 open Smpl.Drv
 
-def dispatch (line : String) : String :=
+def dispatchIO (line : String) : IO String :=
+  match (line.splitOn " ").filter (· ≠ "") with
+  | "akai" :: rest => akaiOp (fun _ => false) rest
+  | _ => pure (dispatch line)
+where dispatch (line : String) : String :=
   match (line.splitOn " ").filter (· ≠ "") with
   | "codec" :: rest => codecOp rest
   | "filter" :: rest => filterOp rest
@@ -29,7 +34,7 @@ partial def loop (hin hout : IO.FS.Stream) : IO Unit := do
   let line ← hin.getLine
   if line.isEmpty then return ()
   let l := String.ofList (line.toList.filter fun c => c != '\n' && c != '\r')
-  hout.putStrLn (dispatch l)
+  hout.putStrLn (← dispatchIO l)
   loop hin hout
 
 def main : IO Unit := do
